@@ -72,6 +72,17 @@ package notifyf
 //@   ensures [C04] (ok9 && err == nil) ==> st.SNodeName == (k9 == 0 ? decStrV(src, q8, 9, d0) : old(st.SNodeName))
 //@   ensures [C06] (ok8 && k9 == 2) ==> err != nil
 //@   ensures [C04] ok9 ==> (err == nil && readBuf.buf.i == q9)
+//@   site ).Read#0 assert [C04] $2 == 1 && $3 == true
+//@   site ).Read#1 assert [C04] $2 == 2 && $3 == true
+//@   site ).Read#2 assert [C04] $2 == 3 && $3 == true
+//@   site ).Read#3 assert [C04] $2 == 4 && $3 == true
+//@   site ).Read#4 assert [C04] $2 == 5 && $3 == true
+//@   site ).Read#5 assert [C04] $2 == 6 && $3 == true
+//@   site ).Read#6 assert [C04] $2 == 7 && $3 == false
+//@   site ).Read#7 assert [C04] $2 == 8 && $3 == false
+//@   site ).Read#8 assert [C04] $2 == 9 && $3 == false
+//@   sites ).Read = 9
+//@   sites ).Skip = 0
 //@   safety [C05]
 //
 //@ func (*ReportInfo).ReadBlock
